@@ -34,6 +34,7 @@ type SpecEnv struct {
 	fr     *Frame // frame for calling Go functions from specs (may be nil)
 	mapIter func() *mapRange
 	loopEntry *State // state when the enclosing loop was entered (loop invariants only)
+	resultIdx int    // which result of a pure multi-result call is wanted (errof)
 	bound  []string // quantified variables in scope (SMT symbols)
 	axDepth int     // nesting of spec-function axiom instantiation
 }
@@ -277,9 +278,11 @@ func (e *SpecEnv) importedPkg(name string) *types.Package {
 	if e.pkg == nil {
 		return nil
 	}
-	if path, ok := importAliases[e.pkg.Path()][name]; ok {
+	if paths, ok := importAliases[e.pkg.Path()][name]; ok {
+		// the same alias may name different packages in different files of the package: the
+		// caller (pkgObject / resolveType) retries with importedPkgs when the lookup fails
 		for _, p := range e.pkg.Imports() {
-			if p.Path() == path {
+			if p.Path() == paths[0] {
 				return p
 			}
 		}
@@ -301,9 +304,30 @@ func (e *SpecEnv) importedPkg(name string) *types.Package {
 	return best
 }
 
+// importedPkgs: every package an alias may stand for (file-level renames differ per file).
+func (e *SpecEnv) importedPkgs(alias string) []*types.Package {
+	var out []*types.Package
+	if e.pkg == nil {
+		return nil
+	}
+	for _, path := range importAliases[e.pkg.Path()][alias] {
+		for _, p := range e.pkg.Imports() {
+			if p.Path() == path {
+				out = append(out, p)
+			}
+		}
+	}
+	return out
+}
+
 func (e *SpecEnv) pkgObject(p *types.Package, name string) T {
 	obj := p.Scope().Lookup(name)
 	if obj == nil {
+		for _, alt := range e.importedPkgsOf(p) {
+			if o := alt.Scope().Lookup(name); o != nil {
+				return e.object(o)
+			}
+		}
 		if gd, ok := e.g.cs.Ghosts[p.Path()+"::"+name]; ok {
 			ge := *e
 			ge.pkg = p
@@ -874,6 +898,15 @@ func (e *SpecEnv) call(x *ast.CallExpr) T {
 				}
 				ksSort := fmt.Sprintf("(Array Int %s)", g.sortOf(mt.Key()))
 				return mk(mr.ord, ksSort, types.NewMap(types.Typ[types.Int], mt.Key()))
+			case "errof", "second":
+				// errof(f(args)): the second result of a pure function
+				c, ok := x.Args[0].(*ast.CallExpr)
+				if !ok {
+					specFail("%s(call)", id.Name)
+				}
+				n := *e
+				n.resultIdx = 1
+				return n.call(c)
 			case "nolocks":
 				// no mutex is held at this point (symbolic lock set of the current state)
 				if len(e.cur.held) == 0 {
@@ -1239,7 +1272,7 @@ func (e *SpecEnv) callGoFunc(fo *types.Func, recv *T, args []ast.Expr) T {
 		}
 	}
 	if g.cs.Pure[key] {
-		return g.pureApp(fo, as)
+		return g.pureAppN(fo, as, e.resultIdx)
 	}
 	if e.fr != nil {
 		if sf := g.prog.FuncValue(fo); sf != nil && sf.Blocks != nil {
@@ -1272,6 +1305,25 @@ func funcKey(fo *types.Func) string {
 	return shortPkg(fo.Pkg()) + "." + fo.Name()
 }
 
+// pureAppN: result number idx of a pure function with several results.
+func (g *Gen) pureAppN(fo *types.Func, as []T, idx int) T {
+	if idx == 0 {
+		return g.pureApp(fo, as)
+	}
+	sig := fo.Type().(*types.Signature)
+	rt := sig.Results().At(idx).Type()
+	rs := g.sortOf(rt)
+	var sorts []Sort
+	var strs []string
+	for _, a := range as {
+		sorts = append(sorts, a.Sort)
+		strs = append(strs, a.S)
+	}
+	name := quote(fmt.Sprintf("m:%s#%d", funcKey(fo), idx))
+	g.declFun(name, sorts, rs)
+	return mk(app(name, strs...), rs, rt)
+}
+
 func (g *Gen) pureApp(fo *types.Func, as []T) T {
 	sig := fo.Type().(*types.Signature)
 	var rs Sort = "Int"
@@ -1293,4 +1345,22 @@ func (g *Gen) pureApp(fo *types.Func, as []T) T {
 		g.assert(sNot(sEq(app(name, strs...), "0")))
 	}
 	return mk(app(name, strs...), rs, rt)
+}
+
+// importedPkgsOf: the other packages that share an import alias with p in the current package.
+func (e *SpecEnv) importedPkgsOf(p *types.Package) []*types.Package {
+	if e.pkg == nil {
+		return nil
+	}
+	var out []*types.Package
+	for alias, paths := range importAliases[e.pkg.Path()] {
+		if contains(paths, p.Path()) {
+			for _, q := range e.importedPkgs(alias) {
+				if q != p {
+					out = append(out, q)
+				}
+			}
+		}
+	}
+	return out
 }
